@@ -15,6 +15,7 @@ import time
 import traceback
 
 HOME = os.environ.get("VERIF_HOME", os.path.dirname(os.path.dirname(os.path.dirname(os.path.abspath(__file__)))))
+OUT = os.environ.get("VERIF_OUT") or HOME    # evidence/ and replays/ land here (scratch runs against mutants set VERIF_OUT)
 MAX_KEYS = 400          # distinct violation keys kept per accumulator
 MAX_SAMPLES = 12
 
@@ -201,7 +202,7 @@ class Ctx(Acc):
                 unlisted.append((key, what, case, py))
         for k, (e, keys) in hit.items():
             print("KNOWN-FINDING: property=%s %s %s (%d symptom key(s) this run)" % (self.pid, e["key"], e.get("what", ""), len(keys)))
-        rdir = os.path.join(HOME, "replays")
+        rdir = os.path.join(OUT, "replays")
         shown = 0
         for key, what, case, py in unlisted:
             h = hashlib.sha1(key.encode()).hexdigest()[:10]
@@ -257,7 +258,7 @@ class Ctx(Acc):
             "wall_s": round(self.elapsed(), 2),
             "violations": n_viol,
         }
-        edir = os.path.join(HOME, "evidence")
+        edir = os.path.join(OUT, "evidence")
         os.makedirs(edir, exist_ok=True)
         tmp = os.path.join(edir, ".%s.json.tmp" % self.pid)
         with open(tmp, "w") as f:
